@@ -280,9 +280,22 @@ pub fn cells() -> Vec<Cell>
 	{
 		for (pass, inner_type, inner_write, what, target) in inners
 		{
-			let text = format!(
+		for (context, _) in CALL_CONTEXTS
+		{
+			let text = if context == "statement"
+			{
+				format!(
 				"{PRELUDE}fn inner(x: {inner_type})\n{{\n\t{inner_write}\n}}\nfn callee(p: {first_type})\n{{\n\tinner({pass});\n}}\nfn main() -> u8\n{{\n{STATE_DECL}{PRINT_STATE}\tcallee({caller_arg});\n{PRINT_STATE}\treturn: 0\n}}\n"
-			);
+				)
+			}
+			else
+			{
+				format!(
+				"{PRELUDE}fn ignore(v: i32)\n{{\n}}\nfn inner(x: {inner_type}) -> i32\n{{\n\t{inner_write}\n\treturn: 1\n}}\nfn callee(p: {first_type})\n{{\n{}}}\nfn main() -> u8\n{{\n{STATE_DECL}{PRINT_STATE}\tcallee({caller_arg});\n{PRINT_STATE}\treturn: 0\n}}\n",
+				call_in_context(context, &format!("inner({pass})"))
+				)
+			};
+			let what = &format!("{what}{}", if context == "statement" { String::new() } else { format!(", call as {context}") });
 			let inner_is_pointer = inner_type.starts_with('&');
 			let (expect, after) = if !inner_is_pointer
 			{
@@ -309,8 +322,80 @@ pub fn cells() -> Vec<Cell>
 				has_ampersand: caller_arg.starts_with('&'),
 			});
 		}
+		}
+	}
+	// the first call level again with the call standing in every expression context
+	for (k, (kname, ptype, _read, write, is_pointer)) in KINDS.iter().enumerate()
+	{
+		for (context, _) in CALL_CONTEXTS.iter().skip(1)
+		{
+			for (a, (arg, base, amps, target)) in ARGS.iter().enumerate()
+			{
+				let text = format!(
+					"{PRELUDE}fn ignore(v: i32)\n{{\n}}\nfn callee(p: {ptype}) -> i32\n{{\n\t{write}\n\treturn: 1\n}}\nfn main() -> u8\n{{\n{STATE_DECL}{PRINT_STATE}{}{PRINT_STATE}\treturn: 0\n}}\n",
+					call_in_context(context, &format!("callee({arg})"))
+				);
+				let arg_ok = param_accepts(k, a);
+				let (expect, after) = if !is_pointer
+				{
+					(Some(if arg_ok == Some(false) { vec![530, 512, 513, 500, 504, 506, 507, 538] } else { vec![530] }), None)
+				}
+				else
+				{
+					match arg_ok
+					{
+						Some(true) =>
+						{
+							let mut st = INITIAL;
+							if let Some(t) = target
+							{
+								st[*t] = 55;
+							}
+							(Some(vec![]), Some(st))
+						}
+						Some(false) =>
+						{
+							let missing_address = *amps == 0 && ptype.starts_with('&') && !base.starts_with('&');
+							(Some(if missing_address { vec![513, 512] } else { vec![512, 513, 500, 504, 506, 507, 530, 538] }), None)
+						}
+						None => (None, None),
+					}
+				};
+				out.push(Cell {
+					what: format!("callee(p: {ptype}) writes; caller passes {arg} in a call standing as {context}"),
+					class: format!("{kname}:write:{}:call as {context}", if *amps > 0 { "with &" } else { "without &" }),
+					text,
+					expect,
+					after,
+					has_ampersand: *amps > 0,
+				});
+			}
+		}
 	}
 	out
+}
+
+/// Expression contexts in which a call (returning i32) can stand.
+const CALL_CONTEXTS: [(&str, &str); 6] = [
+	("statement", ""),
+	("initialiser", ""),
+	("operand", ""),
+	("condition", ""),
+	("argument of another call", ""),
+	("argument of eprint!", ""),
+];
+
+fn call_in_context(context: &str, call: &str) -> String
+{
+	match context
+	{
+		"initialiser" => format!("\tvar r: i32 = {call};\n"),
+		"operand" => format!("\tvar r: i32 = 1i32 + {call};\n"),
+		"condition" => format!("\tif {call} == 1i32\n\t{{\n\t}}\n"),
+		"argument of another call" => format!("\tignore({call});\n"),
+		"argument of eprint!" => format!("\teprint!({call}, \"\\n\");\n"),
+		_ => format!("\t{call};\n"),
+	}
 }
 
 pub fn drive(d: &mut Driver)
